@@ -48,6 +48,10 @@ def run(ctx):
                                              "method": [None, "map-reduce", "cohorts"], "split_every": [2, 3, 4]}, build))
     spaces.append(gen.Space("int5", {"vals": gen.seqs([gen.iv(1), gen.iv(2)], 5), "codes": pats[5][:2], "chunks_i": range(16), "func": FUNCS,
                                      "method": [None, "map-reduce", "cohorts"], "split_every": [2, 3]}, lambda **kw: build(dtype="i8", **kw)))
+    # huge integers (2**60 + small): intermediates must keep them apart (a float64 intermediate would turn neighbours into ties)
+    spaces.append(gen.Space("bigint5", {"vals": gen.seqs([gen.iv(1), gen.iv(2), gen.iv(3)], 5), "codes": pats[5][:2], "chunks_i": range(16),
+                                        "func": ["argmax", "argmin", "nanargmax", "nanargmin", "nanfirst", "nanlast"], "method": [None, "map-reduce", "cohorts"], "split_every": [2, 4]},
+                            lambda **kw: dict(build(dtype="i8", **kw), int_offset=2 ** 60)))
     # many blocks, partially overlapping labels: the planner merges cohorts, block tuples come out of set()s
     def build_overlap(seed, vseed, func, method, split_every):
         codes, chunks = gen.overlap_layout(seed)
